@@ -121,6 +121,19 @@ PROPS = {
         "real_vs_stub": "real code: internal/mockstore/mocktikv MVCCLevelDB (on in-memory goleveldb) and its RPC handlers for ResolveLock/ScanLock; reference: sim/refkv (written for this work)",
         "assumptions": ["commands are applied one at a time (the mock serialises them under its mutex)", "keys are short and few; key encoding is C19 (not applicable)"],
     },
+    "C14": {
+        "engine": "txnsim",
+        "level_text": "leftover locks of every kind (writers crashed at random points of Commit, pessimistic locks, committed primaries with unresolved secondaries), 1-6 regions with splits/merges/leader moves while the GC phase runs; then (1) a recording range-task handler checks that RunOnRange hands out consecutive, non-overlapping sub-ranges covering exactly the requested range incl. the unbounded end, and propagates a handler failure, (2) KVStore.GC or ResolveLocksForRange with scan limits 1/2/3/8 and worker concurrency 1-8 must leave no lock at or below the safe point, every transaction atomically committed or rolled back (shared MVCC oracle), reads consistent, (3) a read below the cached transaction safe point is refused with aborted-by-GC and a read at it is served, (4) DeleteRangeTask removes exactly [start,end)",
+        "level_note": "trusted: simkit, mock TiKV (with the ScanLock / batch ResolveLock handler fixes of this work), MVCC truth read from the store; the mock PD's GC state is per client",
+        "level": "exploration",
+        "modes": [
+            {"mode": "gc", "quick": {"runs": 2400}, "thorough": {"runs": 100000}},
+        ],
+        "rule": ("mode gc: mode reads' writers and crashes, extra region splits, a GC plan from the seed (range bounds incl. empty = unbounded, regions per task 1-3, concurrency 1-8, "
+                 "scan limit 0 (KVStore.GC) / 1 / 2 / 3 / 8, optional injected handler failure, optional delete-range); non-trivial = at least one transaction ended; distinct = canonical RPC traces"),
+        "real_vs_stub": REAL_TXN + "; also real: tikv/gc.go, txnkv/rangetask, tikv/safepoint.go cache",
+        "assumptions": ["backend M (mocktikv)", "populations are small (<= 6 keys): 'any number of locks per region relative to the scan limit' is explored through small limits"],
+    },
     "C06": {
         "engine": "txnsim",
         "level_text": "contending transactions with failing LockKeys steps under region errors and topology changes but no message loss; TTLs are set so that nothing can expire; once the clients' background work has drained the store is scanned for locks of ended transactions",
@@ -144,7 +157,7 @@ NOT_APPLICABLE = [
 ]
 
 ENGINES = [
-    {"name": "txnsim", "path": "sim/engines/txnsim", "serves_properties": ["C01", "C02", "C03", "C04", "C05", "C06", "C07"],
+    {"name": "txnsim", "path": "sim/engines/txnsim", "serves_properties": ["C01", "C02", "C03", "C04", "C05", "C06", "C07", "C14"],
      "kind_free_text": "whole-system deterministic simulation of transactional clients (synctest bubble, simulated transport / PD / TSO, seeded fault injection, MVCC ground-truth oracles)"},
 ]
 
